@@ -74,6 +74,11 @@ def _alloc(m: EffectMachine, op, vals, core):
     m.allocs.append((site, tuple(sizes)))
 
 
+@handler(memref.CastOp)
+def _cast(m, op, vals, core):
+    vals[op.dest] = m.get(vals, op.source)
+
+
 @handler(memref.LoadOp)
 def _load(m: EffectMachine, op, vals, core):
     r: Ref = m.get(vals, op.memref)
